@@ -112,6 +112,16 @@ func (x *Exec) step(st *State, in ssa.Instruction) {
 		v := x.term(st, x.eval(st, in.Value), in.Pos())
 		x.oblige(st, "safety", "nil-map-write", Not(Eq(m, IntLit(0))), in.Pos())
 		mt := in.Map.Type().Underlying().(*types.Map)
+		// a map being ranged over may only have existing keys updated (the iteration model snapshots the key set)
+		for _, fr := range st.frames {
+			for _, rv := range fr.regs {
+				if it, ok := rv.(*Iter); ok && it.isMap && types.Identical(it.T, in.Map.Type()) {
+					if is := st.iters[it.id]; is != nil {
+						x.oblige(st, "safety", "map-insert-during-range", Or(Not(Eq(m, it.coll)), sel(is.dom0, k, "Bool")), in.Pos())
+					}
+				}
+			}
+		}
 		dn, vn := x.reg.MapArrays(x.reg.SortOf(mt.Key()), x.reg.SortOf(mt.Elem()))
 		d := x.heapGet(st, dn)
 		vv := x.heapGet(st, vn)
@@ -185,7 +195,8 @@ func (x *Exec) step(st *State, in ssa.Instruction) {
 			ks := x.reg.SortOf(u.Key())
 			dn, _ := x.reg.MapArrays(ks, x.reg.SortOf(u.Elem()))
 			ds := x.reg.heap[dn][1]
-			dom := Ite(Eq(xv, IntLit(0)), mk(ds, "((as const "+ds+") false)"), sel(x.heapGet(st, dn), xv, ds))
+			dom := st.Fresh("iterdom", ds)
+			st.Assume(Eq(dom, Ite(Eq(xv, IntLit(0)), mk(ds, "((as const "+ds+") false)"), sel(x.heapGet(st, dn), xv, ds))))
 			st.iters[it.id] = &IterState{done: mk(ds, "((as const "+ds+") false)"), dom0: dom}
 		case *types.Basic:
 			it.isStr = true
